@@ -1993,7 +1993,10 @@ class VM:
 
         def split(*args):
             sep = args[0] if args else UNDEFINED
-            limit = int(to_number(args[1])) if len(args) > 1 else -1
+            # The limit is a ToUint32 count; undefined means "no limit"
+            limit = 0xFFFFFFFF
+            if len(args) > 1 and args[1] is not UNDEFINED:
+                limit = self._to_uint32(args[1])
 
             if sep is UNDEFINED:
                 parts = [s]
@@ -2038,10 +2041,8 @@ class VM:
             else:
                 parts = s.split(to_string(sep))
 
-            if limit >= 0:
-                parts = parts[:limit]
             arr = JSArray()
-            arr._elements = parts
+            arr._elements = parts[:limit]
             return arr
 
         def toLowerCase(*args):
